@@ -1844,7 +1844,8 @@ static void janet_register_stream_impl(JanetStream *stream, int mod, int edge_tr
     struct epoll_event ev;
     ev.events = edge_trigger ? EPOLLET : 0;
     if (stream->flags & (JANET_STREAM_READABLE | JANET_STREAM_ACCEPTABLE)) ev.events |= EPOLLIN;
-    if (stream->flags & JANET_STREAM_WRITABLE) ev.events |= EPOLLOUT;
+    /* (a datagram server socket is written to with net/send-to) */
+    if (stream->flags & (JANET_STREAM_WRITABLE | JANET_STREAM_UDPSERVER)) ev.events |= EPOLLOUT;
     ev.data.ptr = stream;
     int status;
     do {
